@@ -356,7 +356,16 @@ func check(args []string) int {
 	// second chance for obligations without a definite answer: fewer solvers at a time, four times the budget
 	// (a proof that needs 9 s of one core times out when 18 solver processes share 16 cores)
 	var retry []*vc.Obligation
+	knownNames := map[string]bool{}
+	for _, f := range loadFindings() {
+		if f.kind == "finding" {
+			knownNames[f.obligation] = true
+		}
+	}
 	for _, o := range obls {
+		if knownNames[o.Name] {
+			continue // a recorded finding: expected to stay undischarged, no second pass
+		}
 		if !o.Static && o.Kind != "vacuity" && !o.Passed() && (o.Result == "unknown" || o.Result == "timeout") {
 			retry = append(retry, o)
 		}
